@@ -204,6 +204,11 @@ impl Lintable for Statement
 						location_of_block: branch.location_of_block,
 					};
 					linter.lints.push(lint);
+					#[cfg(feature = "penne_verif")]
+					crate::verif_trace::emit(format!(
+						"{{\"ev\":\"lint\",\"line\":{},\"code\":1800}}",
+						location.line_number,
+					));
 				}
 			}
 			Statement::Goto { .. } => (),
